@@ -10,6 +10,7 @@ PROPS = {
     "C03": "c03_operators",
     "C04": "c04_not",
     "C05": "c05_captures",
+    "C07": "c07_alignment",
 }
 
 
